@@ -3,6 +3,22 @@
 import json, subprocess, collections
 
 CLAIMS = {
+ "C03": dict(
+   text="Static structural rules on go/ssa for the query machinery: all three iteration strategies are handled by every operation that branches on them, the batch table list is asserted only under the batch flag, all five pieces of code that answer 'which tables does this filter select' use a relation filter's target only for nodes/tables known to carry a relation and only after the node's activity and match tests, and batch ranges are produced from and consumed as [Len before, Len after) of the destination. Sibling-agreement and provenance rules of this kind hold for every filter and history, not for sampled ones.",
+   note="Does NOT decide the index arithmetic of Next/Step/Count/EntityAt (off-by-one, agreement of positions) nor exactly-once visiting; those are the bulk of the property and are out of reach of a sound static argument here. Trusted: go/ssa, idiom recognisers for flag tests and comma-ok assertions.",
+   technique="static analysis: dominance (must-precede) rules and value-provenance on go/ssa; sibling agreement",
+   ref="§2 C03"),
+ "C06": dict(
+   text="Static typestate and co-update rules on go/ssa: a table is retired only when known active, retire and reuse perform all their co-updates on every path, every shrinking write to a table's length zeroes the vacated rows on the same path (so recycled storage starts empty), and the target flag is set/tested/cleared at every site that needs it. Each is a necessary condition of the property on every path.",
+   note="Does not decide orderings of the retire triggers over histories nor row arithmetic. Trusted: go/ssa, mod-set summaries, recognisers for IsActive/index tests, comma-ok map lookups and zeroing primitives (reflect SetZero, zero-copy).",
+   technique="static analysis: typestate (must-precede) dataflow, co-update/post-dominance rules, mod-set summaries on go/ssa",
+   ref="§2 C06"),
+ "C07": dict(
+   text="Static rules on go/ssa: the world tells the cache about every created/reused and every retired table, list and position map are updated together inside the cache, a slice that may alias the cache's list is never read after a call that can modify it, the three table selectors agree (C03.R3), and CachedFilter/Unregister have the documented shape. These are exactly the sites whose deviations make cached and uncached selections differ.",
+   note="Does not decide equality of selections over histories. Trusted: go/ssa, VTA call graph (the cache's getArchetypes callback is resolved through it), mod-set summaries.",
+   technique="static analysis: alias/invalidation dataflow, co-update rules, sibling agreement on go/ssa",
+   ref="§2 C07"),
+
  "C05": dict(
    text="Static value-provenance analysis of Entity values (go/ssa, interprocedural, context-sensitive in the constant option flags): every API-supplied target crosses the zero-or-alive validation before it can become a table's target or be compared/looked up; plus shape rules for the single-relation guard, target retention/reset in both movers, the read side, who writes IsRelation, whole-handle comparison and that inherited targets are never subjected to the dead-target panic. Decided for all paths and all entries, which is what a test of sampled targets cannot give.",
    note="Decides necessary structural conditions: not that the reported target is the last assigned over histories, nor table placement. Trusted: go/ssa, recogniser of the validation idiom (`!t.IsZero() && !Alive(t)` → panic, in if or && form), sink table (target map key, RelationTarget store, target flag set).",
